@@ -14,32 +14,75 @@ class UserLink(SymlinkNodeMixin):
         self.parent = parent
 
 
+class ROAny(AnyNode):
+    """a target class with a read-only (getter-only) property: assigning `ro` raises AttributeError"""
+    ro = property(lambda self: 42)
+
+
 def snapshot(objs):
     idx = {id(o): i for i, o in enumerate(objs)}
     return [[None if o.parent is None else idx[id(o.parent)], [idx[id(c)] for c in o.children]] for o in objs]
 
 
+_SCALARS = {"None": None, "True": True, "False": False, "0": 0, "1": 1, "1.0": 1.0, "''": ""}
+
+
+class Values(object):
+    """value tokens of a case <-> Python objects.  `v<k>` = a string; `None`/`True`/`1`/`1.0`/... = scalars that compare
+    equal across types; `L<k>` = a fresh (empty, mutable) list per token, recognised by identity: storing a value must store
+    *that* object, whatever the attribute held before"""
+
+    def __init__(self):
+        self.lists = {}
+
+    def obj(self, tok):
+        if tok in _SCALARS:
+            return _SCALARS[tok]
+        if tok.startswith("L"):
+            l = []
+            self.lists[id(l)] = (tok, l)
+            return l
+        return tok
+
+    def tok(self, v):
+        if isinstance(v, list):
+            e = self.lists.get(id(v))
+            return e[0] if e is not None and e[1] is v else "unknown-list"
+        if v is None or isinstance(v, (bool, int, float)):
+            return repr(v)
+        if v == "":
+            return "''"
+        return v
+
+
 def impl(case):
     objs = []
     out = []
+    vals = Values()
     for op in case["ops"]:
         k = op["op"]
         try:
             if k == "new":
-                objs.append(AnyNode())
+                objs.append(ROAny() if op.get("kind") == "ro" else AnyNode())
+            elif k == "setro":
+                try:
+                    setattr(objs[op["i"]], "ro", vals.obj(op["v"]))
+                    out.append("ok")
+                except AttributeError:
+                    out.append("AttributeError")
             elif k == "link":
-                kw = {a: b for a, b in op["kw"]}
+                kw = {a: vals.obj(b) for a, b in op["kw"]}
                 cls = UserLink if (case.get("userlink") and not kw) else SymlinkNode
                 objs.append(cls(objs[op["t"]], **kw))
             elif k == "set":
-                setattr(objs[op["i"]], op["k"], op["v"])
+                setattr(objs[op["i"]], op["k"], vals.obj(op["v"]))
             elif k == "get":
                 try:
-                    out.append({"v": getattr(objs[op["i"]], op["k"])})
+                    out.append({"v": vals.tok(getattr(objs[op["i"]], op["k"]))})
                 except AttributeError:
                     out.append("AttributeError")
             elif k == "dump":
-                out.append([[[a, b] for a, b in o.__dict__.items() if a not in SKIP] for o in objs])
+                out.append([[[a, vals.tok(b)] for a, b in o.__dict__.items() if a not in SKIP] for o in objs])
             elif k in ("sp", "sc", "dc"):
                 res = "ok"
                 try:
